@@ -13,7 +13,9 @@ import time
 from harness.core import cfg_text, Machinery
 from harness.drivers import files as drv
 
-TRACE_CONSTS = {"Bytes": {0}, "MaxLen": 0, "Perms": {0}, "Ids": {0}, "TimeHi": {0}, "ZeroOnOpen": False}
+TRACE_CONSTS = {"Bytes": {0}, "MaxLen": 0, "Perms": {0}, "Ids": {0}, "TimeHi": {0}, "ZeroOnOpen": False,
+                "Links": {"none"}, "NoFollowOwnTime": False}
+LINK_OWNER, LINK_MTIME = 7, 5 * 65536 + 5      # what a link itself is given (lchown / utime without following)
 
 
 def limbs(t):
@@ -26,6 +28,15 @@ def unlimbs(p):
 
 
 def observe(path):
+    """the served name as os.stat / read see it (links followed) and, when it is a link, the link's own lstat"""
+    link = "none"
+    lrec = {"luid": 0, "lgid": 0, "lmtime": [0, 0]}
+    if os.path.islink(path):
+        ls = os.lstat(path)
+        lrec = {"luid": ls.st_uid, "lgid": ls.st_gid, "lmtime": limbs(ls.st_mtime_ns // 10 ** 9)}
+        link = "link" if os.path.exists(path) else "dangling"
+    if link == "dangling":
+        return dict({"content": [], "perm": 0, "uid": 0, "gid": 0, "atime": [0, 0], "mtime": [0, 0], "link": link, "failed": False}, **lrec)
     st = os.stat(path)
     fd = os.open(path, os.O_RDONLY | os.O_NOATIME)      # the observer must not move atime itself
     try:
@@ -39,16 +50,26 @@ def observe(path):
         os.close(fd)
     if os.stat(path).st_atime_ns != st.st_atime_ns:
         raise Machinery("reading the served file moved its atime (O_NOATIME not honoured)")
-    return {"content": list(data), "perm": st.st_mode & 0o7777, "uid": st.st_uid, "gid": st.st_gid,
-            "atime": limbs(st.st_atime_ns // 10 ** 9), "mtime": limbs(st.st_mtime_ns // 10 ** 9)}
+    return dict({"content": list(data), "perm": st.st_mode & 0o7777, "uid": st.st_uid, "gid": st.st_gid,
+                 "atime": limbs(st.st_atime_ns // 10 ** 9), "mtime": limbs(st.st_mtime_ns // 10 ** 9), "link": link, "failed": False}, **lrec)
 
 
-def make_file(path, content, perm, uid, gid, atime, mtime):
-    with open(path, "wb") as f:
-        f.write(bytes(content))
-    os.chown(path, uid, gid)
-    os.chmod(path, perm)
-    os.utime(path, (atime, mtime))
+def make_file(path, content, perm, uid, gid, atime, mtime, link="none"):
+    """link = "link": `path` is a symbolic link to the file (path + ".t"); "dangling": a link to nothing"""
+    for q in (path, path + ".t"):
+        if os.path.lexists(q):
+            os.remove(q)
+    real = path if link == "none" else path + ".t"
+    if link != "dangling":
+        with open(real, "wb") as f:
+            f.write(bytes(content))
+        os.chown(real, uid, gid)
+        os.chmod(real, perm)
+        os.utime(real, (atime, mtime))
+    if link != "none":
+        os.symlink(os.path.basename(real), path)
+        os.lchown(path, LINK_OWNER, LINK_OWNER)
+        os.utime(path, (LINK_MTIME, LINK_MTIME), follow_symlinks=False)
 
 
 def empty_attr():
@@ -147,6 +168,7 @@ def run_step(route, target, a, path):
     if kind == "exc" and isinstance(val, Machinery):
         raise val
     after = observe(path)
+    after["failed"] = kind == "exc"
     return {"before": before, "attr": a, "after": after, "raised": kind == "exc", "kind": "attr", "route": route,
             "exc": repr(val) if kind == "exc" else ""}
 
@@ -195,10 +217,13 @@ def run(c):
     root.mkdir(parents=True, exist_ok=True)
     quick = c.quick
     consts = {"Bytes": {1, 2}, "MaxLen": 2 if quick else 3, "Perms": {0o600, 0o755}, "Ids": {0, 4321},
-              "TimeHi": {1, 40000}}
+              "TimeHi": {1, 40000}, "Links": {"none", "link", "dangling"}, "NoFollowOwnTime": False}
     # ---- M: the helper as written in 4.0.0 (truncating open) breaks "keeps leading bytes" on the model ...
-    c.mc("SetAttr", cfg_text(constants=dict(consts, ZeroOnOpen=True), invariants=["KeepsLeadingBytes"]),
+    c.mc("SetAttr", cfg_text(constants=dict(consts, ZeroOnOpen=True, Links={"none"}), invariants=["KeepsLeadingBytes"]),
          expect="KeepsLeadingBytes", name="truncating-open")
+    # seeded defect: chown / utime that do not follow a symbolic link break the meaning when the served name is one
+    c.mc("SetAttr", cfg_text(constants=dict(consts, ZeroOnOpen=False, NoFollowOwnTime=True), invariants=["LocalMeaning"]),
+         expect="LocalMeaning", name="seeded-nofollow-chown-utime")
     # ... with a non-truncating open it has the local meaning for every file and attribute set of the bound
     r = c.mc_holds("SetAttr", cfg_text(constants=dict(consts, ZeroOnOpen=False),
                                        invariants=["LocalMeaning", "KeepsLeadingBytes", "PadsWithZeros", "SizeSet", "Ordered", "StepsCompose", "Emit"]),
@@ -211,23 +236,23 @@ def run(c):
     batch = []
     for i, (_, f0, a, f1) in enumerate(cases):
         p = str(root / ("rp%d" % (i % 64)))
-        make_file(p, f0["content"], f0["perm"], f0["uid"], f0["gid"], unlimbs(f0["atime"]), unlimbs(f0["mtime"]))
+        make_file(p, f0["content"], f0["perm"], f0["uid"], f0["gid"], unlimbs(f0["atime"]), unlimbs(f0["mtime"]), f0["link"])
         step = run_step("direct", None, dict(a), p)
         step["model_after"] = f1
         batch.append({"route": "direct", "steps": [step]})
-        c.case(key=("rp", tuple(f0["content"]), f0["perm"], a["has_perm"], a["perm"], a["has_own"], a["uid"], a["gid"],
+        c.case(key=("rp", f0["link"], tuple(f0["content"]), f0["perm"], a["has_perm"], a["perm"], a["has_own"], a["uid"], a["gid"],
                     a["has_time"], tuple(a["atime"]), tuple(a["mtime"]), a["has_size"], a["size"]),
                sample={"file": f0, "attr": a, "after": step["after"]} if i == len(cases) // 2 else None)
         # drift between the model's final file and the code's (not a clause by itself: the clauses are judged below)
         got = step["after"]
-        if got["content"] != f1["content"] or got["perm"] != f1["perm"] or (got["uid"], got["gid"]) != (f1["uid"], f1["gid"]):
+        if f0["link"] != "dangling" and (got["content"] != f1["content"] or got["perm"] != f1["perm"] or (got["uid"], got["gid"]) != (f1["uid"], f1["gid"])):
             c.conformance("differs_from_model:" + "+".join(k for k in ("perm", "own", "time", "size") if a["has_" + k]),
                           "set_file_attr result differs from SetAttr's final state for attr %r on %r: %r" % (a, f0, got))
     n_rp = len(batch)
 
     # ---- M: sequences on one open handle with other mutations in between (SetAttr_Session): every handle step means
     # the one os.* call it names; a per-handle attribute block that accumulates fields (seeded defect) must be rejected
-    sconsts = dict(consts, MaxLen=2, ZeroOnOpen=False, MaxSteps=3)
+    sconsts = dict(consts, MaxLen=2, ZeroOnOpen=False, MaxSteps=3, Links={"none"})
     c.mc("SetAttr_Session", cfg_text(spec="SSpec", constants=dict(sconsts, SharedBlock=True), invariants=["SessionMeaning"]),
          expect="SessionMeaning", name="seeded-shared-attribute-block")
     r = c.mc_holds("SetAttr_Session", cfg_text(spec="SSpec", constants=dict(sconsts, SharedBlock=False),
@@ -263,8 +288,10 @@ def run(c):
             n = rnd.choice([0, 1, 2, 7, rnd.randint(0, 40), rnd.randint(0, 300), rnd.randint(0, 600)])
             data = bytes(rnd.choice([rnd.randrange(1, 256), rnd.randrange(1, 256), 10]) for _ in range(n))
             special = rnd.random() < 0.15       # setuid/setgid words only in traces without owner/size changes
+            # the served name is the file itself, a symbolic link to it, or (not by handle: it cannot be opened) a dangling link
+            link = rnd.choice(["none", "none", "none", "link", "link", "dangling" if route != "handle" else "link"])
             make_file(p, data, rnd.choice([0o644, 0o600, 0o755]), rnd.choice([0, 1000]), rnd.choice([0, 1000]),
-                      rnd.randrange(2 ** 31), rnd.randrange(2 ** 31))
+                      rnd.randrange(2 ** 31), rnd.randrange(2 ** 31), link)
             target, fh, hmode = None, None, ""
             if route == "path":
                 target = pair.client
@@ -273,7 +300,7 @@ def run(c):
                 fh = target = pair.client.open(name, hmode, rnd.choice([-1, 0, 1, 512]))
             steps = []
             for _ in range(rnd.randint(1, 6)):
-                if steps and rnd.random() < 0.5:        # something else touches the file in between
+                if steps and link != "dangling" and rnd.random() < 0.5:        # something else touches the file in between
                     if rnd.random() < 0.4:
                         steps.append(write_step(p, fh if hmode == "r+" and rnd.random() < 0.6 else None, rnd))
                     else:
@@ -282,14 +309,14 @@ def run(c):
                             if not b["time_now"] and not (special and (b["has_own"] or b["has_size"])):
                                 break
                         steps.append(run_step("env", None, b, p))
-                cur = os.path.getsize(p)
+                cur = os.path.getsize(p) if link != "dangling" else 0
                 while True:
                     a = random_attr(rnd, route, cur, special)
                     # a size change through a handle corresponds to os.truncate(fd): the handle must be open for writing
                     if not (special and (a["has_own"] or a["has_size"])) and not (route == "handle" and hmode == "r" and a["has_size"]):
                         break
                 steps.append(run_step(route, target, a, p))
-                c.case(key=("tv", route, a["has_perm"], a["has_own"], a["has_time"], a["time_now"], a["has_size"],
+                c.case(key=("tv", route, link, a["has_perm"], a["has_own"], a["has_time"], a["time_now"], a["has_size"],
                             (a["size"] > cur) - (a["size"] < cur) if a["has_size"] else 9, min(cur, 3)))
             if fh is not None:
                 fh.close()
@@ -312,12 +339,16 @@ def run(c):
         fields = "+".join(k for k in ("perm", "own", "time", "size") if a["has_" + k])
         b, f = s["before"], s["after"]
         want = {k: a[k] for k in ("perm", "uid", "gid", "atime", "mtime", "size") if a["has_" + {"uid": "own", "gid": "own", "atime": "time", "mtime": "time"}.get(k, k)]}
+        served = {"none": "", "link": " (served name is a symbolic link to the file; link itself: owner %d:%d mtime %d -> %d:%d mtime %d)"
+                  % (b["luid"], b["lgid"], unlimbs(b["lmtime"]), f["luid"], f["lgid"], unlimbs(f["lmtime"])),
+                  "dangling": " (served name is a dangling symbolic link; link itself: owner %d:%d mtime %d -> %d:%d mtime %d; os.* raises here)"
+                  % (b["luid"], b["lgid"], unlimbs(b["lmtime"]), f["luid"], f["lgid"], unlimbs(f["lmtime"]))}[b["link"]]
         what = ("attribute change %r%s via %s route: clause %s fails - before: %d bytes %r.. mode %o owner %d:%d times %d/%d; "
                 "after: %d bytes %r.. mode %o owner %d:%d times %d/%d%s"
                 % (want, (" (%s)" % sclass) if a["has_size"] else "", route, clause,
                    len(b["content"]), b["content"][:8], b["perm"], b["uid"], b["gid"], unlimbs(b["atime"]), unlimbs(b["mtime"]),
                    len(f["content"]), f["content"][:8], f["perm"], f["uid"], f["gid"], unlimbs(f["atime"]), unlimbs(f["mtime"]),
-                   (" raised " + s["exc"]) if s["raised"] else ""))
+                   (" raised " + s["exc"]) if s["raised"] else "")) + served
         earlier = [{"route": x.get("route"), "kind": x["kind"], "attr": {k: v for k, v in x["attr"].items() if k.startswith("has_") and v}}
                    for x in batch[tid - 1]["steps"][:line - 1]]
         rep = {"route": route, "attr": a, "before": dict(s["before"], content=s["before"]["content"][:64]),
